@@ -57,7 +57,7 @@ def extract(g, X):
             raise ValueError("no resource arms")
         if not re.search(r"ref\s+op\s*=>\s*Ok\(op\.clone\(\)\)", b):
             raise ValueError("default arm is not `ref op => Ok(op.clone())`")
-        return "[" + "; ".join("(%s, %s)" % (bl(v), bl(k)) for v, k in out) + "]"
+        return "[" + "; ".join("(%s, %s)" % (bl(v), bl(k)) for v, k in X.ordered_by_key(out)) + "]"
     g.attempt([("import_op_cats", "list (list N * list N)")], "content.rs:deep_clone_op", op_cats)
 
     def props_arms():
@@ -141,12 +141,17 @@ def extract(g, X):
             raise KeyError("impl DeepClone for Primitive")
         b = X.fn_body(om[m.start():], "deep_clone")
         out = []
-        for a in re.finditer(r"Primitive::(\w+)(?:\(([^)]*)\))?\s*=>\s*Ok\(Primitive::(\w+)(?:\((.*?)\))?\)\s*[,}]", b):
-            v, pat, v2, expr = a.group(1), a.group(2) or "", a.group(3), a.group(4) or ""
-            if v != v2:
-                raise ValueError("arm %s builds %s" % (v, v2))
-            rec = 1 if "deep_clone(cloner)" in expr else 0
-            out.append((v, rec))
+        for arm in X.match_arms(b, r"\*?\s*self"):
+            for p in arm.pats:
+                v = X.variant_name(p)
+                built = re.findall(r"Ok\(\s*Primitive::(\w+)", arm.raw)
+                if v is None or arm.guard is not None or len(built) != 1:
+                    continue
+                if v != built[0]:
+                    raise ValueError("arm %s builds %s" % (v, built[0]))
+                # the arm (an expression, or a block with locals) clones what the variant holds through the cloner
+                rec = 1 if "deep_clone(cloner)" in arm.raw else 0
+                out.append((v, rec))
         if len(out) < 10:
             raise ValueError("only %d arms recognised" % len(out))
         return "[" + "; ".join("(%s, %d)" % (bl(v), r) for v, r in sorted(out)) + "]"
@@ -157,7 +162,10 @@ def extract(g, X):
         b = X.fn_body(fi, "empty")
         m = re.search(r"refs:\s*XRefTable::new\((\d+)\)", b)
         nb = X.fn_body(xr, "new")
-        if not re.search(r"entries\.resize\(num_objects as usize", nb) or len(re.findall(r"entries\.push\(", nb)) != 1:
+        (n,) = X.fn_params(xr, "new")
+        filled = (re.search(r"\w+\.resize\(\s*" + n + r"\s+as\s+usize\s*,", nb) or
+                  re.search(r"vec!\[\s*XRef::Invalid\s*;\s*" + n + r"\s+as\s+usize\s*\]", nb))
+        if not filled or len(re.findall(r"\w+\.push\(", nb)) != 1:
             raise ValueError("XRefTable::new changed")
         cb = X.fn_body(fi, "create")
         if not re.search(r"let\s+id\s*=\s*self\.refs\.len\(\)\s*as\s*u64\s*;\s*self\.refs\.push\(XRef::Promised\)", cb):
